@@ -38,7 +38,7 @@ Definition events_of (o : outcome) (r : row) : list event :=
 
 (* ---------- Add with a failing write ---------- *)
 Inductive fault := NoFault | FailBefore (k : nat) | FailAfter (k : nat).
-Inductive result := Done (o : outcome) | WriteFailed (k : nat).
+Inductive result := Done (o : outcome) | WriteFailed (w : write).
 
 (* the header handed to cs.insert *)
 Fixpoint insert_of (ws : list write) : option row :=
@@ -48,18 +48,19 @@ Fixpoint insert_of (ws : list write) : option row :=
   | WUpdate _ _ :: t => insert_of t
   end.
 
-(* Some (k, number of writes that happened) when the fault hits one of the n planned writes *)
-Definition fault_point (x : fault) (n : nat) : option (nat * nat) :=
+(* Some (the failing write, number of writes that happened) when the fault hits one of the planned writes *)
+Definition fault_point (x : fault) (ws : list write) : option (write * nat) :=
   match x with
   | NoFault => None
-  | FailBefore k => if Nat.ltb k n then Some (k, k) else None
-  | FailAfter k => if Nat.ltb k n then Some (k, S k) else None
+  | FailBefore k => match nth_error ws k with Some w => Some (w, k) | None => None end
+  | FailAfter k => match nth_error ws k with Some w => Some (w, S k) | None => None end
   end.
 
+(* WriteFailed (WUpdate ..) = ChainUpdateFail, WriteFailed (WInsert ..) = HeaderSaveFail *)
 Definition add_f (f : list N) (s : store) (h : src) (x : fault) : store * result * list event :=
   let '(o, ws) := plan f s h in
-  match fault_point x (length ws) with
-  | Some (k, done) => (exec s ws done, WriteFailed k, [])
+  match fault_point x ws with
+  | Some (w, done) => (exec s ws done, WriteFailed w, [])
   | None => (exec s ws (length ws), Done o,
              match insert_of ws with Some r => events_of o r | None => [] end)
   end.
